@@ -296,7 +296,8 @@ Proof.
   - destruct SH as [_ ->]. cbn. destruct o; exact I.
   - destruct SH as [_ [_ ->]]. cbn. destruct o; exact I.
   - destruct SH as [_ ->]. cbn [top tpc]. destruct (query_visits (get_cont h t) q); cbn; destruct o; exact I.
-  - destruct SH as [_ ->]. cbn. destruct o; exact I.
+  - destruct SH as [_ ->]. cbn. destruct o as [| |q9 [k9|]| | | |]; try exact I.
+    destruct (Nat.eqb (List.length acc) k9); exact I.
   - destruct fr as [|[|[[c pre0] q0] todo] fr]; cbn in SH.
     + destruct SH as [_ ->]. cbn. destruct o; exact I.
     + destruct SH as [n' [m' [hs' [_ [_ ->]]]]]. cbn. destruct o; exact I.
